@@ -15,7 +15,7 @@
 //! list `k1,v1,k2,v2,…` of `x<hex>` strings (empty group = paragraph without keyed entries).
 use crate::util::*;
 use crate::Resp;
-use deb822_lossless::{Deb822, FromDeb822Paragraph};
+use deb822_lossless::{Deb822, FromDeb822Paragraph, ToDeb822Paragraph};
 use debian_copyright::License;
 use std::panic::{catch_unwind, AssertUnwindSafe};
 use std::path::Path;
@@ -195,6 +195,41 @@ struct View {
     gate: String, // ok | nmr | perr | err:<hex message>
     idx: Ans<Option<usize>>,
     lic: Ans<Option<Lic>>,
+    /// the copyright holders of the paragraph found (lossless: `copyright()`; lossy: the stored
+    /// `copyright` vector); `Err` = the stored vector could not be read off the Debug rendering
+    cpr: Ans<Option<Result<Vec<String>, String>>>,
+}
+
+fn show_cpr(c: &Option<Result<Vec<String>, String>>) -> String {
+    match c {
+        None => "none".to_string(),
+        Some(Ok(l)) => format!("{}:{}", l.len(), elist(l)),
+        Some(Err(e)) => format!("?{}", es(e)),
+    }
+}
+
+/// The fields of the lossy `FilesParagraph` are private and `to_paragraph()` joins the holders
+/// with `\n` (so `[]` and `[""]` both print as the empty field). The derived `Debug` ends with
+/// `copyright: <vec>, comment: <option> }`: the comment is known from `to_paragraph()`, and the
+/// vector is whichever of the candidates (`[]` when the joined field is empty, and its `split('\n')`)
+/// renders to that suffix.
+fn lossy_copyright(fp: &debian_copyright::lossy::FilesParagraph) -> Result<Vec<String>, String> {
+    let para: deb822_lossless::lossy::Paragraph = fp.to_paragraph();
+    let comment: Option<String> = para.get("Comment").map(|s| s.to_string());
+    let joined = para.get("Copyright").unwrap_or_default().to_string();
+    let dbg = format!("{:?}", fp);
+    let tail = format!(", comment: {:?} }}", comment);
+    let body = dbg.strip_suffix(&tail).ok_or_else(|| format!("no comment suffix in {}", dbg))?;
+    let mut cands: Vec<Vec<String>> = vec![joined.split('\n').map(|x| x.to_string()).collect()];
+    if joined.is_empty() {
+        cands.push(vec![]);
+    }
+    let hits: Vec<Vec<String>> =
+        cands.into_iter().filter(|c| body.ends_with(&format!(", copyright: {:?}", c))).collect();
+    match hits.as_slice() {
+        [one] => Ok(one.clone()),
+        _ => Err(format!("copyright not identified in {}", dbg)),
+    }
 }
 
 fn show_view(tag: &str, v: &View) -> String {
@@ -209,7 +244,11 @@ fn show_view(tag: &str, v: &View) -> String {
         Ans::Val(l) => show_lic(l),
         Ans::Panic => "PANIC".to_string(),
     };
-    format!("{}[ok files={} lic={}]", tag, i, l)
+    let c = match &v.cpr {
+        Ans::Val(c) => show_cpr(c),
+        Ans::Panic => "PANIC".to_string(),
+    };
+    format!("{}[ok files={} lic={} cpr={}]", tag, i, l, c)
 }
 
 fn guard<T>(f: impl FnOnce() -> T) -> Ans<T> {
@@ -232,15 +271,16 @@ fn lossless_view(c: &debian_copyright::lossless::Copyright, path: &str) -> View 
         })
     });
     let lic = guard(|| c.find_license_for_file(Path::new(path)).map(|l| lic_tuple(&l)));
-    View { gate: "ok".to_string(), idx, lic }
+    let cpr = guard(|| c.find_files(Path::new(path)).map(|found| Ok(found.copyright())));
+    View { gate: "ok".to_string(), idx, lic, cpr }
 }
 
 fn view_l(text: &str, path: &str) -> View {
     use debian_copyright::lossless::{Copyright, Error};
     match Copyright::from_str(text) {
-        Err(Error::NotMachineReadable) => View { gate: "nmr".into(), idx: Ans::Panic, lic: Ans::Panic },
-        Err(Error::ParseError(_)) => View { gate: "perr".into(), idx: Ans::Panic, lic: Ans::Panic },
-        Err(Error::IoError(_)) => View { gate: "ioerr".into(), idx: Ans::Panic, lic: Ans::Panic },
+        Err(Error::NotMachineReadable) => View { gate: "nmr".into(), idx: Ans::Panic, lic: Ans::Panic, cpr: Ans::Panic },
+        Err(Error::ParseError(_)) => View { gate: "perr".into(), idx: Ans::Panic, lic: Ans::Panic, cpr: Ans::Panic },
+        Err(Error::IoError(_)) => View { gate: "ioerr".into(), idx: Ans::Panic, lic: Ans::Panic, cpr: Ans::Panic },
         Ok(c) => lossless_view(&c, path),
     }
 }
@@ -248,8 +288,8 @@ fn view_l(text: &str, path: &str) -> View {
 fn view_r(text: &str, path: &str) -> View {
     use debian_copyright::lossless::{Copyright, Error};
     match Copyright::from_str_relaxed(text) {
-        Err(Error::NotMachineReadable) => View { gate: "nmr".into(), idx: Ans::Panic, lic: Ans::Panic },
-        Err(_) => View { gate: "perr".into(), idx: Ans::Panic, lic: Ans::Panic },
+        Err(Error::NotMachineReadable) => View { gate: "nmr".into(), idx: Ans::Panic, lic: Ans::Panic, cpr: Ans::Panic },
+        Err(_) => View { gate: "perr".into(), idx: Ans::Panic, lic: Ans::Panic, cpr: Ans::Panic },
         Ok((c, _)) => lossless_view(&c, path),
     }
 }
@@ -266,7 +306,7 @@ fn view_y(text: &str, path: &str, strict_ok: bool) -> View {
             } else {
                 format!("err:{}", es(&m))
             };
-            View { gate, idx: Ans::Panic, lic: Ans::Panic }
+            View { gate, idx: Ans::Panic, lic: Ans::Panic, cpr: Ans::Panic }
         }
         Ok(c) => {
             let idx = guard(|| {
@@ -274,7 +314,8 @@ fn view_y(text: &str, path: &str, strict_ok: bool) -> View {
                     .map(|found| c.files.iter().position(|f| std::ptr::eq(f, found)).unwrap_or(usize::MAX))
             });
             let lic = guard(|| c.find_license_for_file(Path::new(path)).map(lic_tuple));
-            View { gate: "ok".to_string(), idx, lic }
+            let cpr = guard(|| c.find_files(Path::new(path)).map(lossy_copyright));
+            View { gate: "ok".to_string(), idx, lic, cpr }
         }
     }
 }
@@ -578,6 +619,25 @@ fn gen_files(thorough: bool, rng: &mut Rng, out: &mut Out) {
             find_req(out, &t, p);
         }
     }
+    // the stored copyright holders (observable `cpr=`): empty field (lossy `[]`, lossless `[""]`:
+    // deserialize_copyrights, lossy.rs:163-169), one holder, several lines, with a Comment
+    let cblocks: Vec<String> = vec![
+        "Files: *\nCopyright:\nLicense: MIT\n".to_string(),
+        "Files: a/*\nCopyright: h1\n h2\nLicense: GPL\nComment: c\n".to_string(),
+        "Files: a/b\nCopyright:\nLicense: GPL\n text\nComment: x\n  y\n".to_string(),
+        "Files: a/?\nCopyright: 2020, comment: None }\nLicense: MIT\n".to_string(),
+        STANDALONE[0].to_string(),
+    ];
+    for seq in lists_upto(&cblocks, 3) {
+        let mut t = String::from(good_header);
+        for b in &seq {
+            t.push('\n');
+            t.push_str(b);
+        }
+        for p in ["a/b", "a/xy", "x"] {
+            find_req(out, &t, p);
+        }
+    }
     let spaths = ["a/b", "b/y", "x", "a/x b/y", "a/* b/*", ""];
     for seq in lists_upto(&blocks, if thorough { 4 } else { 3 }) {
         let mut t = String::from(good_header);
@@ -692,6 +752,8 @@ fn gen_files(thorough: bool, rng: &mut Rng, out: &mut Out) {
                 1 => b = format!("{}Comment: c{}\n", b, id),
                 2 => b = files_para(&[], 0, "MIT", id),
                 3 => b = b.replace("License: ", "Licence: "),
+                4 => b = b.replace(&format!("Copyright: 20{:02} holder\n", id), "Copyright:\n"),
+                5 => b = b.replace(" holder\n", " holder\n second holder\n"),
                 _ => {}
             }
             blocks.push(b);
